@@ -161,12 +161,25 @@ func (p *HTTPProxy) ServeHTTP(w http.ResponseWriter, r *http.Request) {
 	// TODO(fs): have found the target based on the prefix but there may be other
 	// TODO(fs): matchers which may have different rules. I'll keep this for
 	// TODO(fs): a defensive approach.
+	// rawPath is the path as the client encoded it (e.g. with %2F). It is
+	// rewritten in step with the decoded path so that the encoding survives.
+	rawPath := r.URL.RawPath
+
 	if t.StripPath != "" && strings.HasPrefix(r.URL.Path, t.StripPath) {
 		targetURL.Path = targetURL.Path[len(t.StripPath):]
 		// ensure absolute path after stripping to maintain compliance with
 		// section 5.3 of RFC7230 (https://tools.ietf.org/html/rfc7230#section-5.3)
 		if !strings.HasPrefix(targetURL.Path, "/") {
 			targetURL.Path = "/" + targetURL.Path
+		}
+		if strings.HasPrefix(rawPath, t.StripPath) {
+			rawPath = rawPath[len(t.StripPath):]
+			if !strings.HasPrefix(rawPath, "/") {
+				rawPath = "/" + rawPath
+			}
+		} else {
+			// the prefix itself is encoded: use the default encoding
+			rawPath = ""
 		}
 	}
 
@@ -176,6 +189,19 @@ func (p *HTTPProxy) ServeHTTP(w http.ResponseWriter, r *http.Request) {
 		// section 5.3 of RFC7230 (https://tools.ietf.org/html/rfc7230#section-5.3)
 		if !strings.HasPrefix(targetURL.Path, "/") {
 			targetURL.Path = "/" + targetURL.Path
+		}
+		if rawPath != "" {
+			rawPath = t.PrependPath + rawPath
+			if !strings.HasPrefix(rawPath, "/") {
+				rawPath = "/" + rawPath
+			}
+		}
+	}
+
+	// keep the client's encoding if the rewritten raw path is well-formed
+	if rawPath != "" {
+		if p, err := url.PathUnescape(rawPath); err == nil {
+			targetURL.Path, targetURL.RawPath = p, rawPath
 		}
 	}
 
